@@ -44,7 +44,9 @@ CHECKS = {
     "C08": dict(engine="sme", technique="TLA+ model checking for (state x input class) coverage + replay + structured byte-level mutations in every cooperative state",
                 text="TLC enumerates every reachable state x message class (including the present-but-empty format list); all edges are "
                      "executed on the real connection under a deadline with panic recovery; in every state a cooperative peer can reach, "
-                     "structured mutations of every message class are delivered. Oracle: no panic, no hang (TLC monitor).", ref="6.C08"),
+                     "structured mutations of every message class are delivered. Oracle: no panic, no hang (TLC monitor). mDNS side: the "
+                     "TLC-enumerated table of awkward resolver inputs (MdnsBadGen) on a real MdnsManager; websocket side: the frames a "
+                     "SHIP peer must never send (WsGen peerBad rows) on a real websocket connection, each followed by a regular frame.", ref="6.C08"),
     "C09": dict(engine="sme", technique="TLA+ model checking of ShipSme over stored x presented SHIP ids + replay, TLC monitor on real id reports / setup",
                 text="All (stored, presented) SHIP-id pairs incl. empty / missing / ill-typed, both roles, both orders of request and reply "
                      "are model checked; replay judges the real ReportServiceShipID / SetupRemoteDevice event order and the final state.", ref="6.C09"),
